@@ -240,12 +240,12 @@ ALL_IDS = [json.loads(l)["id"] for l in open(os.path.join(VERIF, "properties.jso
 
 def main():
     reg = check.load_registry()
-    have = {h["id"] for h in reg}
+    have = {i for h in reg for i in h["ids"]}
     checks = []
     for pid in ALL_IDS:
         if pid in CLAIMED and pid in have:
             text, note, ref = CLAIMED[pid]
-            has_thorough = any(h["id"] == pid and h["tier"] == "thorough" for h in reg)
+            has_thorough = any(pid in h["ids"] and h["tier"] == "thorough" for h in reg)
             c = {
                 "property_id": pid,
                 "quick_cmd": f"./check {pid} --tier quick",
